@@ -18,6 +18,8 @@ class FnNull:
         self.site_state = {}     # call Val id -> (vals frozenset, heap frozenset) state before the call
         self.ret_nonempty = True
         self.arg_nonempty = {}   # call Val id -> [bool per arg]
+        self.arg_nonroot = {}    # call Val id -> [bool per arg]: argument known to differ from the root
+        self.arg_heap = {}       # call Val id -> {(k, field): bool}: link `field` of node(arg k) known NonEmpty at the call
 
 
 class NullAnalysis:
@@ -26,6 +28,8 @@ class NullAnalysis:
         self.EMPTY = prog.EMPTY_REF
         self.param_fact = {}      # (fn.path, k) -> bool
         self.ret_fact = {}        # fn.path -> bool
+        self.param_nr = {}        # (fn.path, k) -> bool: every caller passes a node known not to be the root
+        self.param_heap = {}      # (fn.path, k, field) -> bool: every caller has established node(arg).field != EMPTY_REF
         self.results = {}
         # assumptions: set of (fn.path, val id) accepted as NonEmpty by a reasoned exception
         self.assumed = assumptions if assumptions is not None else set()
@@ -41,8 +45,12 @@ class NullAnalysis:
         prog = self.prog
         fns = [f for f in prog.fns.values()]
         for f in fns:
+            has_callers = bool(prog.callers(f)) and not f.trait_item
             for k in self.u32_params(f):
                 self.param_fact[(f.path, k)] = True
+                self.param_nr[(f.path, k)] = has_callers
+                for fld in LINKS:
+                    self.param_heap[(f.path, k, fld)] = has_callers
             self.ret_fact[f.path] = True
         changed = True
         while changed and self.rounds < 20:
@@ -65,6 +73,8 @@ class NullAnalysis:
                     flags = r.arg_nonempty.get(call.id)
                     if flags is None:
                         continue    # unreachable call
+                    nr = r.arg_nonroot.get(call.id, [])
+                    hp = r.arg_heap.get(call.id, {})
                     for k in self.u32_params(tgt):
                         if k - 1 < len(flags) and not flags[k - 1]:
                             if self.param_fact.get((tgt.path, k)):
@@ -72,6 +82,13 @@ class NullAnalysis:
                                 if self.contract_param(tgt, k):
                                     continue
                                 self.param_fact[(tgt.path, k)] = False
+                                changed = True
+                        if self.param_nr.get((tgt.path, k)) and not (k - 1 < len(nr) and nr[k - 1]):
+                            self.param_nr[(tgt.path, k)] = False
+                            changed = True
+                        for fld in LINKS:
+                            if self.param_heap.get((tgt.path, k, fld)) and not hp.get((k, fld)):
+                                self.param_heap[(tgt.path, k, fld)] = False
                                 changed = True
         return self
 
@@ -111,11 +128,36 @@ class NullAnalysis:
         elif k == 'load':
             ats = origins(self.prog, fn, v)
             r = bool(ats) and all(a[0] == 'pop' for a in ats)
+            if not r and fn.is_closure:
+                cap = self.captured(fn, v)
+                if cap is not None:
+                    pfn, pval = cap
+                    r = self.intrinsic(pfn, pval)
         elif k == 'phi':
             r = all(self.intrinsic(fn, a, _seen) for a in v.args)
         if not _seen or len(_seen) == 1:
             self._intr_cache[key] = r
         return r
+
+    def captured(self, fn, v):
+        """if v reads a captured variable of closure fn: (parent Fn, captured Val in the parent)"""
+        root = strip(v.args[0])
+        if not (root.kind == 'param' and root.args[0] == 1):
+            return None
+        flds = v.fields()
+        if len(flds) != 1 or not flds[0].startswith('upvar'):
+            return None
+        n = int(flds[0][5:])
+        parent = self.prog.fns.get(fn.parent)
+        if parent is None:
+            return None
+        for x in parent.body._vals:
+            if x.kind == 'agg' and x.extra.get('akind') == 'closure' and x.extra.get('path') == fn.path and n < len(x.args):
+                pv = strip(x.args[n])
+                while pv.kind == 'ref' and not pv.fields():
+                    pv = strip(pv.args[0])
+                return parent, pv
+        return None
 
     def heap_key(self, fn, v):
         """key of the heap place a load reads, if it is a link field of an arena element or self.root"""
@@ -166,7 +208,17 @@ class NullAnalysis:
             events[bb].sort(key=lambda e: (e[0], e[1]))
         TOP = None
         inn = {bb: TOP for bb in cfg.rpo}
-        inn[0] = (frozenset(), frozenset(), ())
+        v0, h0 = set(), set()
+        for k in self.u32_params(fn):
+            pv = b.params.get(k)
+            if pv is None:
+                continue
+            if self.param_nr.get((fn.path, k)):
+                v0.add(('nr', pv.id))
+            for fld in LINKS:
+                if self.param_heap.get((fn.path, k, fld)):
+                    h0.add(('node', pv.id, fld))
+        inn[0] = (frozenset(v0), frozenset(h0), ())
         out_edge = {}
         work = [0]
         inwork = {0}
@@ -184,6 +236,8 @@ class NullAnalysis:
                     alias[obj.id] = hk
                     if hk in heap:
                         vals.add(obj.id)
+                    elif hk[0] == 'node' and hk[2] == 'parent' and ('nr', hk[1]) in vals:
+                        vals.add(obj.id)        # only the root has an empty parent link
                 elif kind == 'store':
                     f = obj.fields()
                     if f and (f[-1] in LINKS or f[-1] == 'root'):
@@ -198,6 +252,13 @@ class NullAnalysis:
                 elif kind == 'call':
                     res.site_state[obj.id] = (frozenset(vals), frozenset(heap))
                     res.arg_nonempty[obj.id] = [self.nonempty(fn, a, vals) for a in obj.args]
+                    res.arg_nonroot[obj.id] = [('nr', strip(a).id) in vals for a in obj.args]
+                    hp = {}
+                    for i, a in enumerate(obj.args):
+                        aid = strip(a).id
+                        for fld in LINKS:
+                            hp[(i + 1, fld)] = ('node', aid, fld) in heap or (fld == 'parent' and ('nr', aid) in vals)
+                    res.arg_heap[obj.id] = hp
                     if self.kills_heap(fn, obj):
                         heap.clear()
                         alias.clear()
@@ -265,6 +326,10 @@ class NullAnalysis:
         if is_debug_assert(d.span):
             return
         x, y = strip(d.args[1]), strip(d.args[2])
+        root_side = None
+        for a, c in ((x, y), (y, x)):
+            if c.kind == 'load' and self.prog.self_field(c) == ('root',):
+                root_side = a
         # which successor means "true"
         tv = None
         for val, tb in t['targets']:
@@ -281,6 +346,8 @@ class NullAnalysis:
             return
         truth = bool(tv)
         equal = truth if d.args[0] == 'Eq' else (not truth)
+        if root_side is not None and not equal:
+            vals.add(('nr', root_side.id))      # x != root: x is a non-root node (persistent: not a heap fact)
         for a, c in ((x, y), (y, x)):
             if self.prog.is_empty_ref(c) and not equal:
                 self.learn(a, vals, heap, alias)
